@@ -191,10 +191,44 @@ type bcase struct {
 	filler string // invalidity of the positions of S outside sub
 	sigs   [][]byte
 	idKey  []bool // identity public key at the position
+	pat    string // key pattern ("" = all positions hold distinct keys)
 }
 
 func (c *bcase) id() string {
-	return fmt.Sprintf("n%d/%s/S%02x/%v/%s", c.n, c.kind, c.S, c.sub, c.filler)
+	return fmt.Sprintf("%sn%d/%s/S%02x/%v/%s", c.pat, c.n, c.kind, c.S, c.sub, c.filler)
+}
+
+// key patterns: which key sits at which position (lists with repeated public keys)
+var keyPatterns = map[string]func(i int) int{
+	"all-same-key/":       func(i int) int { return 0 },
+	"adjacent-equal-keys/": func(i int) int { return i / 2 },
+	"alternating-keys/":   func(i int) int { return i % 2 },
+}
+
+type origArrays struct {
+	sk      [maxN]*big.Int
+	valid   [maxN][]byte
+	validPt [maxN]refbls.G1
+	keyObj  [maxN]crypto.PublicKey
+	keyRepr [maxN]string
+}
+
+var orig *origArrays
+
+// applyPattern re-points the per-position arrays so that position i holds key kp(i) ("" restores).
+func applyPattern(name string) {
+	if orig == nil {
+		orig = &origArrays{skOf, valid, validPt, keyObj, keyRepr}
+	}
+	kp := func(i int) int { return i }
+	if name != "" {
+		kp = keyPatterns[name]
+	}
+	for i := 0; i < maxN; i++ {
+		j := kp(i)
+		skOf[i], valid[i], validPt[i], keyObj[i], keyRepr[i] = orig.sk[j], orig.valid[j], orig.validPt[j], orig.keyObj[j], orig.keyRepr[j]
+	}
+	verifyCache = sync.Map{}
 }
 
 func members(S uint, n int) []int {
@@ -841,6 +875,45 @@ func main() {
 		}
 	}
 	phase["seed-tapes-B"] = time.Since(t0).Seconds()
+	// phase 3: lists with REPEATED public keys (all positions one key, adjacent equal keys,
+	// alternating keys): the same subset x kind enumeration for n <= 4 (thorough 5) under the real
+	// reader, and the stand-alone correlated cases under 4 seed tapes
+	t0 = time.Now()
+	patN := 4
+	if run.Thorough() {
+		patN = 5
+	}
+	var patNames []string
+	for name := range keyPatterns {
+		patNames = append(patNames, name)
+	}
+	sort.Strings(patNames)
+	patCases := 0
+	for _, name := range patNames {
+		applyPattern(name)
+		var alone []*bcase
+		for n := 2; n <= patN && n <= nMax; n++ {
+			cs := buildCases(n)
+			for _, c := range cs {
+				c.pat = name
+				if c.alone() {
+					alone = append(alone, c)
+				}
+			}
+			patCases += len(cs)
+			ev.Par(len(cs), func(i int) {
+				var st stats
+				evaluate(cs[i], "real", true, &st)
+				st.flush()
+			})
+		}
+		for _, k := range []int{0, 7, 8, 15} {
+			runTape(&tape{k: k, base: 0x3d}, alone)
+		}
+	}
+	applyPattern("")
+	caseCounts["repeated-key-patterns(total)"] = patCases
+	phase["repeated-keys"] = time.Since(t0).Seconds()
 	crand.Reader = realReader
 	if tapeReads != tapeCalls || tapeBad != 0 {
 		run.Fatal("seed tape accounting: %d batch calls but %d reads of crypto/rand.Reader (%d of unexpected length): the tape does not own the randomness", tapeCalls, tapeReads, tapeBad)
